@@ -170,6 +170,11 @@ func NewReader(src BlockSource, name string) (*Reader, error) {
 		return nil, err
 	}
 
+	switch r.header.HashID {
+	case SHA1ID, SHA256ID:
+	default:
+		return nil, fmt.Errorf("reftable: unknown hash ID %q", r.header.HashID)
+	}
 	r.hashSize = r.header.HashID.Size()
 	r.header.BlockSize &= (1 << 24) - 1
 
@@ -179,6 +184,9 @@ func NewReader(src BlockSource, name string) (*Reader, error) {
 
 	r.objectIDLen = int(r.footer.ObjOffset & ((1 << 5) - 1))
 	r.footer.ObjOffset >>= 5
+	if r.objectIDLen > r.hashSize {
+		return nil, fmt.Errorf("reftable: object ID length %d exceeds hash size %d", r.objectIDLen, r.hashSize)
+	}
 
 	wantCRC32 := crc32.ChecksumIEEE(footBlock[:footerSize(version)-4])
 	if gotCRC32 != wantCRC32 {
